@@ -8,25 +8,45 @@ type tagImportNode struct {
 	position *Token
 	filename string
 	macros   map[string]*tagMacroNode // alias/name -> macro instance
+
+	// all macros the imported file exports, under the names they are defined
+	// with: what the body of an imported macro finds under these names
+	library map[string]*tagMacroNode
+}
+
+// callable returns what an imported macro is bound to. The macro runs in a
+// scope of the importing template in which the exported macros of its own file
+// are known under their own names (it may have been imported under an alias
+// only, and the macros it calls need not have been imported at all).
+func (node *tagImportNode) callable(ctx *ExecutionContext, macro *tagMacroNode) func(args ...*Value) (*Value, error) {
+	return func(args ...*Value) (*Value, error) {
+		// same recursion guard as for locally defined macros
+		ctx.macroDepth++
+		defer func() {
+			ctx.macroDepth--
+		}()
+
+		if ctx.macroDepth > maxMacroDepth {
+			return nil, ctx.Error(fmt.Sprintf("maximum recursive macro call depth reached (max is %v)", maxMacroDepth), node.position)
+		}
+
+		libCtx := ctx
+		for name, sibling := range node.library {
+			if _, bound := ctx.Private[name]; !bound {
+				if libCtx == ctx {
+					libCtx = NewChildExecutionContext(ctx)
+				}
+				libCtx.Private[name] = node.callable(ctx, sibling)
+			}
+		}
+
+		return macro.call(libCtx, args...)
+	}
 }
 
 func (node *tagImportNode) Execute(ctx *ExecutionContext, writer TemplateWriter) *Error {
 	for name, macro := range node.macros {
-		func(name string, macro *tagMacroNode) {
-			ctx.Private[name] = func(args ...*Value) (*Value, error) {
-				// same recursion guard as for locally defined macros
-				ctx.macroDepth++
-				defer func() {
-					ctx.macroDepth--
-				}()
-
-				if ctx.macroDepth > maxMacroDepth {
-					return nil, ctx.Error(fmt.Sprintf("maximum recursive macro call depth reached (max is %v)", maxMacroDepth), node.position)
-				}
-
-				return macro.call(ctx, args...)
-			}
-		}(name, macro)
+		ctx.Private[name] = node.callable(ctx, macro)
 	}
 	return nil
 }
@@ -76,6 +96,7 @@ func tagImportParser(doc *Parser, start *Token, arguments *Parser) (INodeTag, *E
 		}
 
 		importNode.macros[asName] = macroInstance
+		importNode.library = tpl.exportedMacros
 
 		if arguments.Remaining() == 0 {
 			break
